@@ -4,6 +4,7 @@
 -/
 import CnvVerif.Model.Fix
 import CnvVerif.Lemmas.Fix
+import CnvVerif.Lemmas.FixAlign
 namespace CnvVerif.C04
 open CnvVerif
 
@@ -95,6 +96,34 @@ theorem weight_mono_size (pooled : Bool) (spread m v sq₁ sq₂ : Rat) (hm : 0 
 theorem weight_antitone_spread (pooled : Bool) (sq m v s₁ s₂ : Rat) (h0 : 0 ≤ s₁) (h12 : s₁ ≤ s₂) :
     weightOf pooled s₂ sq m v ≤ weightOf pooled s₁ sq m v :=
   CnvVerif.weight_antitone_spread pooled sq m v s₁ s₂ h0 h12
+
+/-- the headline clause for a whole class of bins (targets or antitargets), through loading, masking, centring
+    and every enabled correction, for ANY shuffling permutation, half-window and set of enabled corrections:
+    the emitted bins are exactly the sample bins whose coordinate-matched reference bin passes the filters, in
+    genomic order, and the reference rows subtracted afterwards are aligned with them position by position,
+    every one a good row of the given reference.  (`KeysSortable`: two bins that tie in the genomic order have
+    the same coordinates -- true of every table, since the order compares exactly chromosome, start, end.) -/
+theorem fix_emits_exactly_good_bins_aligned (samp : List SRow) (ref : List RRow) (skipLow fixGc fixEdge fixRmask : Bool)
+    (par : Option String) (perm : List Nat) (wing : Nat) (ek : Option (List Rat))
+    (cn : List SRow) (rf : List RRow) (sl : Rat)
+    (hperm : IsPerm perm (goodRows (sortS samp) ref).length) (hks : KeysSortable samp)
+    (h : loadAdjust samp ref skipLow fixGc fixEdge fixRmask par perm wing ek = .ok (cn, rf, sl)) :
+    (cn.map sKey).Perm ((goodRows samp ref).map sKey) ∧ cn.Pairwise (fun a b => sSortLe a b = true) ∧
+    rf.map rKey = cn.map sKey ∧ (∀ q ∈ rf, badBin q = false ∧ q ∈ ref) :=
+  loadAdjust_aligned samp ref skipLow fixGc fixEdge fixRmask par perm wing ek cn rf sl hperm hks h
+
+/-- the side condition of `fix_emits_exactly_good_bins_aligned` holds for every table whose chromosome names are
+    told apart by the sort key (no mixture of spellings such as "chr1" and "1" within one table) -/
+theorem aligned_side_condition_holds (samp : List SRow)
+    (h : ∀ a ∈ samp, ∀ b ∈ samp, sorterChrom a.chrom = sorterChrom b.chrom → a.chrom = b.chrom) :
+    KeysSortable samp := keysSortable_of_distinct_names samp h
+
+/-- … and the whole class is refused when a sample bin is absent from the reference or coordinates repeat -/
+theorem fix_class_rejects_missing_or_duplicated (samp : List SRow) (ref : List RRow) (skipLow fixGc fixEdge fixRmask : Bool)
+    (par : Option String) (perm : List Nat) (wing : Nat) (ek : Option (List Rat)) (hne : samp ≠ [])
+    (hbad : hasDup (samp.map sKey) = true ∨ hasDup (ref.map rKey) = true ∨ ∃ r ∈ samp, ∀ q ∈ ref, rKey q ≠ sKey r) :
+    ∃ e, loadAdjust samp ref skipLow fixGc fixEdge fixRmask par perm wing ek = .error e :=
+  loadAdjust_rejects samp ref skipLow fixGc fixEdge fixRmask par perm wing ek hne hbad
 
 /-! non-vacuity -/
 example : edgeLoss 100 250 = 250 / 200 - (150 : Rat) ^ 2 / (2 * 250 * 100) := by decide +kernel
